@@ -10,7 +10,10 @@ wattage_range properties), runs the workload (single- and multi-threaded execs, 
 a sampler logs sg_host_get_consumed_energy / sg_link_get_consumed_energy at every scripted date. Python compares each
 sampled energy with the exact rational of the reference state of the same date, and checks that samples never decrease.
 
-Mutations tried (tools/mutbuild.sh, quick tier): see the end of this docstring (filled in after the experiments)
+Mutations tried (tools/mutbuild.sh, quick tier), all CAUGHT (exit 1):
+  * host_energy.cpp: HostEnergy::update reads the new pstate before integrating the elapsed interval
+  * host_energy.cpp: the off power is forgotten (0 W while the host is off)
+  * link_energy.cpp: half of the dynamic (load-dependent) power is dropped
 """
 import json
 from fractions import Fraction as F
